@@ -15,6 +15,10 @@ MODULES = {
 
 
 def apply(relpath, fc, cfg=None):
+    import c_msgs
+    if relpath in c_msgs.FILES:
+        c_msgs.FILES[relpath](fc)
+        return
     mod = MODULES.get(relpath)
     if mod is None:
         return
